@@ -15,6 +15,7 @@ import TonVerif.Proofs.SnakeDepth
 import TonVerif.Proofs.SrcArith
 import TonVerif.Generated.VarLen
 import TonVerif.Proofs.SrcTyped
+import TonVerif.Proofs.SrcSnake
 
 namespace TonVerif.Properties.C06
 open TonVerif TonVerif.Model TonVerif.Spec.Tlb TonVerif.Proofs.Builder TonVerif.Proofs.Slice
@@ -483,6 +484,130 @@ example :
     fun _ => rfl, by decide +kernel⟩
 
 end SrcMethods
+
+/-! ## Source-regenerated SNAKE methods (`Generated/SnakeOps.lean`: `Builder.store_snake_bytes / store_snake_string`,
+`Slice.load_snake_bytes / load_snake_string` re-translated from builder.py / slice.py on every run)
+
+The code is ITERATIVE (the head bytes, then the tail cells built from the END of the chain in a loop-carried local; the reader a
+`while True:` over a cursor that starts as an alias of `self`), the hand model RECURSIVE from the head.  `Proofs/SrcSnake.lean`
+proves them equal for every byte string and every builder / slice state; the snake theorems above are restated here for the
+regenerated code.  `mk` = `Cell(bits, refs, type_)` as `end_cell` calls it (here C01's depth-checking constructor `mkC H`), `viewV` =
+what `begin_parse()` reads of a referenced cell, `fuel` = the declared bound on the iterations of the reader's `while True:`. -/
+section SrcSnake
+open TonVerif.Proofs.SrcBuilder TonVerif.Proofs.SrcSnake TonVerif.Generated.SnakeOps
+
+/-- `c.begin_parse()` for the cell trees of C01: data bits and references -/
+def viewV (c : Cell) : Py.CellV Cell := ⟨(viewC c).1, (viewC c).2⟩
+
+theorem viewP_viewV : viewP viewV = viewC := rfl
+
+/-- THE TIE, snake: regenerated = hand model, for ALL byte strings, ALL builder states (also outside the capacity invariant) and,
+for the reader, all slice states with `ref_offset ≤ len(refs)` and every iteration bound. -/
+theorem c06_src_snake (mk : Bits → List R → Option R) (view : R → Py.CellV R) (bs : Bytes) (p : Bool) (b : Builder R)
+    (fuel : Nat) (s : Py.SliceSt R) (hs : s.ref_offset ≤ s.refs.length) :
+    store_snake_bytes mk bs b = ofFlag (BOp.storeSnake mk bs b) ∧
+    store_snake_string mk bs p b = ofFlag (BOp.storeSnakeString mk bs p b) ∧
+    Proofs.SrcSlice.viewR id (Slice_load_snake_bytes view fuel s) = SOp.loadSnakeFuel (viewP view) fuel (Proofs.SrcSlice.view s) ∧
+    Proofs.SrcSlice.viewR id (Slice_load_snake_string view fuel s) =
+      SOp.loadSnakeStringFuel (viewP view) fuel (Proofs.SrcSlice.view s) :=
+  ⟨src_store_snake_bytes_eq mk bs b, src_store_snake_string_eq mk bs p b, src_load_snake_bytes_eq view fuel s hs,
+   src_load_snake_string_eq view fuel s hs⟩
+
+/-- `c06_snake_store_iff` for the regenerated method: with the real (depth-checking) `end_cell`, on every builder with ≤ 1023 bits
+(any alignment) and a free reference slot, the regenerated `store_snake_bytes` returns EXACTLY when the chain depth
+`snakeDepth p n` is at most 1024. -/
+theorem c06_src_snake_store_iff (H : Bytes → Bytes) (bs : Bytes) (b : Builder Cell) (hb : Proofs.Builder.Inv b)
+    (hr : b.refs.length < 4) :
+    (store_snake_bytes (mkC H) bs b).2 = some () ↔ snakeDepth b.bits.length bs.length ≤ 1024 := by
+  rw [src_store_snake_bytes_eq, ofFlag_some]
+  exact c06_snake_store_iff H bs b hb hr
+
+/-- `c06_snake_depth_exact` for the regenerated methods.  `b` = any within-capacity builder without references holding `p` bits,
+`n` bytes stored, `D = snakeDepth p n`: (1) the regenerated `store_snake_bytes` returns iff `D ≤ 1024`; when it returns, (2) the
+root (`b'.bits`, `b'.refs`) has depth exactly `D`, (3) the regenerated `end_cell` on it succeeds iff `D ≤ 1023`, and (4) what was
+appended is byte-aligned and the regenerated `load_snake_bytes` on it returns `bs` (every iteration bound ≥ len + 2). -/
+theorem c06_src_snake_depth_exact (H : Bytes → Bytes) (bs : Bytes) (hw : Bytes.WF bs) (b : Builder Cell)
+    (hb : Proofs.Builder.Inv b) (hr : b.refs = []) :
+    ((store_snake_bytes (mkC H) bs b).2 = some () ↔ snakeDepth b.bits.length bs.length ≤ 1024) ∧
+    ((store_snake_bytes (mkC H) bs b).2 = some () →
+      ordDepth (.mk (-1) (store_snake_bytes (mkC H) bs b).1.bits (store_snake_bytes (mkC H) bs b).1.refs) =
+        snakeDepth b.bits.length bs.length ∧
+      ((end_cell (mkC H) (store_snake_bytes (mkC H) bs b).1).2.isSome ↔ snakeDepth b.bits.length bs.length ≤ 1023) ∧
+      ∃ tail, (store_snake_bytes (mkC H) bs b).1.bits = b.bits ++ tail ∧ tail.length % 8 = 0 ∧
+        ∀ fuel, bs.length + 2 ≤ fuel →
+          (Slice_load_snake_bytes viewV fuel ⟨tail, (store_snake_bytes (mkC H) bs b).1.refs, 0⟩).2 = some bs) := by
+  have h := c06_snake_depth_exact H bs hw b hb hr
+  rw [src_store_snake_bytes_eq, ofFlag_some, ofFlag_fst, end_cell_eq]
+  refine ⟨h.1, fun hok => ?_⟩
+  obtain ⟨h2, h3, tail, e1, e2, e3⟩ := h.2 hok
+  refine ⟨h2, h3, tail, e1, e2, fun fuel hf => ?_⟩
+  have hl := src_load_snake_bytes_eq viewV fuel ⟨tail, (BOp.storeSnake (mkC H) bs b).1.refs, 0⟩ (Nat.zero_le _)
+  have := congrArg Prod.snd hl
+  simp only [Proofs.SrcSlice.viewR, Option.map_id, id] at this
+  rw [this]
+  exact e3 fuel hf
+
+/-- the snake round trip through the regenerated code, with the boundary: a reference-free builder `b` (`p` bits, within
+capacity), `n` bytes.  If the chain depth `snakeDepth p n ≤ 1023`: `store_snake_bytes` returns, `end_cell` builds the cell `c`, and
+`load_snake_bytes` on `c.begin_parse()` after skipping the `p` bits `b` held returns exactly `bs`.  Beyond (`> 1023`) the library
+refuses: no cell comes out of `store_snake_bytes` + `end_cell` (the store itself raises from depth 1025 on, `end_cell` at 1024). -/
+theorem c06_src_snake_roundtrip (H : Bytes → Bytes) (bs : Bytes) (hw : Bytes.WF bs) (b : Builder Cell)
+    (hb : Proofs.Builder.Inv b) (hr : b.refs = []) :
+    (snakeDepth b.bits.length bs.length ≤ 1023 →
+      ∃ b' c, store_snake_bytes (mkC H) bs b = (b', some ()) ∧ end_cell (mkC H) b' = (b', some c) ∧
+        ∀ fuel, bs.length + 2 ≤ fuel →
+          (Slice_load_snake_bytes viewV fuel ⟨(viewV c).bits.drop b.bits.length, (viewV c).refs, 0⟩).2 = some bs) ∧
+    (1023 < snakeDepth b.bits.length bs.length →
+      ¬ ∃ b' c, store_snake_bytes (mkC H) bs b = (b', some ()) ∧ end_cell (mkC H) b' = (b', some c)) := by
+  have h := c06_src_snake_depth_exact H bs hw b hb hr
+  constructor
+  · intro hd
+    have hok := h.1.mpr (by omega)
+    obtain ⟨_, h3, tail, e1, _, e3⟩ := h.2 hok
+    have hc := h3.mpr hd
+    rw [end_cell_eq] at hc
+    obtain ⟨c, hc⟩ := Option.isSome_iff_exists.mp hc
+    simp only at hc
+    refine ⟨(store_snake_bytes (mkC H) bs b).1, c, Prod.ext rfl hok, by rw [end_cell_eq, hc], fun fuel hf => ?_⟩
+    have hv := viewC_mkC H _ _ c hc
+    have hb1 : (viewV c).bits = (store_snake_bytes (mkC H) bs b).1.bits := congrArg Prod.fst hv
+    have hb2 : (viewV c).refs = (store_snake_bytes (mkC H) bs b).1.refs := congrArg Prod.snd hv
+    rw [hb1, hb2, e1, List.drop_left]
+    exact e3 fuel hf
+  · intro hd ⟨b', c, h1, h2⟩
+    have hok : (store_snake_bytes (mkC H) bs b).2 = some () := by rw [h1]
+    have h3 := (h.2 hok).2.1
+    have hb' : (store_snake_bytes (mkC H) bs b).1 = b' := by rw [h1]
+    rw [hb', h2] at h3
+    have := h3.mp rfl
+    omega
+
+/-- the regenerated snake methods on concrete inputs: 3 bytes into an empty builder over bare trees (constructor total), a
+130-byte string splits 127 + 3 with one reference, and the regenerated reader returns it; hypotheses of the theorems above are
+met (`Inv`, reference-free, `snakeDepth 0 130 = 1`). -/
+example :
+    (store_snake_bytes (fun bits refs => some (SCell.mk bits refs)) [1, 2, 3] (Builder.empty : Builder SCell)).2 = some () ∧
+    (store_snake_bytes (fun bits refs => some (SCell.mk bits refs)) (List.replicate 130 7) (Builder.empty : Builder SCell)).1.refs.length = 1 ∧
+    (store_snake_bytes (fun bits refs => some (SCell.mk bits refs)) (List.replicate 130 7) (Builder.empty : Builder SCell)).1.bits.length = 1016 ∧
+    (Slice_load_snake_bytes (fun c => match c with | SCell.mk bits refs => (⟨bits, refs⟩ : Py.CellV SCell)) 5
+      ⟨(store_snake_bytes (fun bits refs => some (SCell.mk bits refs)) (List.replicate 130 7) (Builder.empty : Builder SCell)).1.bits,
+       (store_snake_bytes (fun bits refs => some (SCell.mk bits refs)) (List.replicate 130 7) (Builder.empty : Builder SCell)).1.refs, 0⟩).2
+      = some (List.replicate 130 7) ∧
+    snakeDepth 0 130 = 1 := by
+  refine ⟨by decide +kernel, by decide +kernel, by decide +kernel, by decide +kernel, by decide⟩
+
+/-- `preload_ref(offset)` for EVERY offset (the regenerated method; the hand model `SOp.preloadRef` only has offset 0): it returns
+the reference `offset` places after the next unread one, raises (IndexError) when there is none, and changes nothing. -/
+theorem c06_src_preload_ref_offset (k : Nat) (s : Py.SliceSt R) :
+    Generated.SliceOps.preload_ref k s = (s, (Proofs.SrcSlice.view s).refs[k]?) := by
+  unfold Generated.SliceOps.preload_ref Py.bindO Proofs.SrcSlice.view
+  simp only [List.getElem?_drop]
+  cases s.refs[s.ref_offset + k]? <;> rfl
+
+example : (Generated.SliceOps.preload_ref 1 (⟨[], [7, 8, 9], 1⟩ : Py.SliceSt Nat)).2 = some 9 ∧
+    (Generated.SliceOps.preload_ref 2 (⟨[], [7, 8, 9], 1⟩ : Py.SliceSt Nat)).2 = none := by decide
+
+end SrcSnake
 
 /-- the depth closed form at the boundaries (empty first builder: room for 127 bytes; 1016 bits prefilled: room for
 0): the longest storable snake, one byte more (stored, but the root cannot be finished), one chunk more (refused). -/
